@@ -73,7 +73,7 @@ def run(ctx):
     check_struct_schemas(ctx, S, closure, "C16/D1")
     check_tables(ctx, S, "C16/D2")
     check_shims(ctx, S, "C16/D3")
-    check_stored_as_read(ctx, S, "C16/D4")
+    check_stored_as_read(ctx, S, "C16/D4", set(closure))
 
 
 def check_struct_schemas(ctx, S, closure, RULE, ser_only=False):
@@ -259,7 +259,7 @@ def check_shims(ctx, S, RULE, directions=("from", "try_into")):
                  {shim, shim + "::from"} <= sd and {shim, shim + "::try_into"} <= dd, "serialize delegates %s; deserialize delegates %s" % (sorted(sd), sorted(dd)))
 
 
-def check_stored_as_read(ctx, S, RULE):
+def check_stored_as_read(ctx, S, RULE, closure=None):
     fx = ctx.fx
     rs, vis, asref = _rule_fns(fx, S)
     # ---- D4 decoded values stored unmodified
@@ -289,25 +289,5 @@ def check_stored_as_read(ctx, S, RULE):
                             ctx.bad(RULE, "ArtifactRule::%s.%s stored as read" % (rv["variant"], fname),
                                     "value is transformed between the wire and the stored rule: <- {%s}" % ", ".join(leaf_s(vb, l) for l in lv), st["at"])
         ctx.ok(RULE, "rule elements stored as read", "%d rule payload fields examined: each is a next_element() result (possibly wrapped in Some)" % n)
-    # string newtypes with a hand-written Deserialize: the stored text is the decoded text (constructors inlined)
-    n_nt = 0
-    for im in fx.impls:
-        if norm(im.get("trait")) != "serde::Deserialize":
-            continue
-        adt = fx.adts.get(im.get("self_adt") or "")
-        if not adt or len(adt["variants"]) != 1 or [fl["ty"] for fl in adt["variants"][0]["fields"]] != ["std::string::String"]:
-            continue
-        for m in im["methods"]:
-            f = fx.fns.get(m["key"])
-            if not f or f.get("exp") or m["name"] != "deserialize":
-                continue
-            n_nt += 1
-            rb = ctx.region(None, policy="all-local", key=f["key"])
-            fld0 = ("f", adt["variants"][0]["fields"][0]["name"])
-            lv = rb.trace({"l": 0, "p": []}, (OK, F0, fld0))
-            okn = bool(lv) and all(l.kind == "call" and (callee_name(l.data[1]) or "").endswith("Deserialize::deserialize") and l.path == (OK, F0) for l in lv)
-            ctx.inst(RULE, "%s stores the decoded string unchanged" % im["self_ty"].split("::")[-1], okn,
-                     "stored text <- {%s}" % ", ".join(leaf_s(rb, l) for l in lv), f["at"])
-    if n_nt == 0:
-        ctx.bad(RULE, "string newtypes", "no hand-written Deserialize impl of a string newtype found (VirtualTargetPath / KeyId expected)")
+    keys.check_string_newtypes(ctx, RULE, closure)
     keys.check_pubkey_deser(ctx, RULE)
